@@ -355,6 +355,25 @@ pub struct MapLife {
     /// The working directory of the process has been removed and the files are named by `..`-relative paths.
     #[serde(default)]
     pub cwd_removed: bool,
+    /// With `cwd_removed`: name the files by their absolute paths anyway (only the process state is unusual).
+    #[serde(default)]
+    pub cwd_absolute: bool,
+    /// Maps are dropped because a panic unwinds through the scope that owns them.
+    #[serde(default)]
+    pub unwind_drops: bool,
+}
+
+/// Drops a live map, either normally or by letting an unrelated panic unwind through the scope that owns it.
+fn drop_map(l: Live, unwinding: bool) -> Result<(), String> {
+    if unwinding {
+        match catch(move || { let _in_scope = l; if true { panic!("sdsim: unrelated panic while a map is in scope"); } }) {
+            Err(ref m) if m.contains("unrelated panic while a map is in scope") => Ok(()),
+            Err(p) => Err(p),
+            Ok(()) => Ok(()),
+        }
+    } else {
+        catch(move || drop(l))
+    }
 }
 
 /// Children that keep an executable busy; killed when the scenario ends, however it ends.
@@ -406,7 +425,7 @@ impl MapLife {
             };
             ops.push(op);
         }
-        MapLife { files, ops, cwd_removed: rng.chance(1, 12) }
+        MapLife { files, ops, cwd_removed: rng.chance(1, 10), cwd_absolute: rng.bool(), unwind_drops: rng.chance(1, 5) }
     }
 
     pub fn run(&self, prop: &str) -> Outcome {
@@ -421,7 +440,7 @@ impl MapLife {
                 ((0..self.files.len()).map(|i| base.join(format!("life-{}", i))).collect(), Some(base))
             } else { let _ = std::env::set_current_dir(scratch::dir()); (self.files.iter().map(|_| scratch::file("life")).collect(), None) }
         } else { (self.files.iter().map(|_| scratch::file("life")).collect(), None) };
-        let r = self.run_inner(prop, &paths, base.is_some(), &mut out.stats);
+        let r = self.run_inner(prop, &paths, base.is_some() && !self.cwd_absolute, &mut out.stats);
         if let Some(b) = base { let _ = std::env::set_current_dir(scratch::dir()); for p in paths.iter() { let _ = std::fs::remove_file(p); let _ = std::fs::remove_dir(p); } let _ = std::fs::remove_dir_all(&b); }
         for p in paths.iter() { let _ = std::fs::remove_file(p); let _ = std::fs::remove_dir(p); }
         match r { Ok(()) => out, Err(viol) => out.fail(viol) }
@@ -650,7 +669,8 @@ impl MapLife {
                             let file = l.file;
                             let was_mutable = l.mutable;
                             verif_io::start_map_log();
-                            catch(move || drop(l)).map_err(|p| v("drop-panic", "MemoryMap::drop", format!("{}: {}", step, p)))?;
+                            drop_map(l, self.unwind_drops).map_err(|p| v("drop-panic", "MemoryMap::drop", format!("{}: {}", step, p)))?;
+                            stats.probe_if(self.unwind_drops, "map dropped while the stack unwinds");
                             let log = verif_io::take_map_log();
                             if log.iter().any(|c| matches!(c, MapCall::Unmap { ret, .. } if *ret != 0)) { stats.probe("munmap returned an error"); }
                             if was_mutable && sparse_len[file].is_none() {
@@ -670,7 +690,7 @@ impl MapLife {
             if let Some(l) = slots[i].take() {
                 let file = l.file;
                 let was_mutable = l.mutable;
-                catch(move || drop(l)).map_err(|p| v("drop-panic", "MemoryMap::drop", p))?;
+                drop_map(l, self.unwind_drops).map_err(|p| v("drop-panic", "MemoryMap::drop", p))?;
                 check_regions(&slots, &format!("final drop of slot {}", i))?;
                 // Survivors stay readable.
                 for other in slots.iter().filter_map(|s| s.as_ref()) { check_content(other, &model, "final drops")?; }
@@ -694,6 +714,7 @@ impl MapLife {
     pub fn simpler(&self) -> Vec<MapLife> {
         let mut out = Vec::new();
         if self.cwd_removed { let mut s = self.clone(); s.cwd_removed = false; out.push(s); }
+        if self.unwind_drops { let mut s = self.clone(); s.unwind_drops = false; out.push(s); }
         for i in 0..self.ops.len() {
             // Removing a Map op shifts slot numbers; renumber the references.
             let mut s = self.clone();
